@@ -174,18 +174,26 @@ def analyse(text, variant, mode):
     return r, fails, {"hscale": hscale, "melabel": " ".join(melabel[2:]), "cert": r.cert}
 
 
-def spec_restriction_mismatch(text, variant, blocks, hpre):
-    """dumped HBLK (before diagonalisation) against <bra| H |ket> of EDSpec.poly_matrix (oracle's HFULL, built from the dumped
-    Hamiltonian polynomial on the full Fock space) for bra, ket in the block; exact (dyadic amplitudes).
-    None = equal everywhere | text naming the first differing cell | "unavailable"."""
+def oracle_hfull(text, variant):
+    """EDSpec.poly_matrix of the dumped Hamiltonian polynomial on the full Fock space (driver_ed `hfull`), row-major; None if unavailable"""
     r = edlib.run(text, ["hfull"], variant=variant)
     hf = [t for t in r.oracle if t[0] == "HFULL"]
     if not hf:
-        return "unavailable"
+        return None
     full = hl.cplx_list(hf[0][1:])
     d = 1 << r.n()
-    if len(full) != d * d:
+    return full if len(full) == d * d else None
+
+
+def spec_restriction_mismatch(text, variant, blocks, hpre, full=None):
+    """dumped HBLK (before diagonalisation) against <bra| H |ket> of EDSpec.poly_matrix (oracle's HFULL, built from the dumped
+    Hamiltonian polynomial on the full Fock space) for bra, ket in the block; exact (dyadic amplitudes).
+    None = equal everywhere | text naming the first differing cell | "unavailable"."""
+    if full is None:
+        full = oracle_hfull(text, variant)
+    if full is None:
         return "unavailable"
+    d = int(round(len(full) ** 0.5))
     worst = None
     count = 0
     for b in sorted(blocks):
@@ -266,14 +274,22 @@ def history_failures(text, variant, mode, eigs_ref=None, part_hists=None, ham_hi
             hscale = max(hscale, sum(abs(x) for x in mv[i * sz:(i + 1) * sz]))
     facts["hscale"] = hscale
 
+    cache = {}
+
     def prepared_ok(level, h, k, b, rec):
         """rec = (status, size, entries) of an object that says Prepared"""
         sz, mv = mh[b]
         facts["prepared_compared"] += 1
         if rec[1] == sz and len(rec[2]) == len(mv) and all(feq(x, y) for x, y in zip(rec[2], mv)):
             return
+        facts["prepared_wrong"] = facts.get("prepared_wrong", 0) + 1
+        if facts["prepared_wrong"] > 3:
+            return                              # three per scenario are described; the count stays in the facts
         first = (hs.pstep if level == "part" else hs.hpart).get((h, 0, b))
-        what = spec_restriction_mismatch(text, variant, {b: blocks[b]}, {b: (rec[1], rec[2])})
+        if "full" not in cache:
+            cache["full"] = oracle_hfull(text, variant)
+        what = (spec_restriction_mismatch(text, variant, {b: blocks[b]}, {b: (rec[1], rec[2])}, full=cache["full"])
+                if cache["full"] is not None else "unavailable")
         who = "one HamiltonianPart object (block %d, %d states)" % (b, len(blocks[b])) if level == "part" else "one Hamiltonian object (block %d)" % b
         if what and what != "unavailable":
             fails.append(("history-hblk", True, "after %s on %s the object says Prepared but its matrix is not the Hamiltonian restricted to the block: %s%s"
@@ -423,10 +439,7 @@ def probe_label_bound(chk):
 def failures_of(text, variant, mode, fk):
     """the failures of one scenario that can be of kind fk (histories on one object are a run of their own)"""
     if fk.startswith("history-"):
-        r0 = edlib.run(text, [], variant=variant, stage="diag", oracle=False)
-        if r0.error or r0.crash or not r0.dumprec("VEC"):
-            return []
-        return history_failures(text, variant, mode, eigs_ref=r0.eigs())[0]
+        return history_failures(text, variant, mode)[0]
     return analyse(text, variant, mode)[1]
 
 
@@ -440,9 +453,9 @@ def report(chk, family, kind, variant, text, mode, fails):
             continue
         cnt = chk.extra.setdefault("failures_by_kind", {})
         cnt[fk + "|" + variant] = cnt.get(fk + "|" + variant, 0) + 1
-        if cnt[fk + "|" + variant] > 2:
-            continue                      # two shrunk instances per kind and build are reported; the count stays in the evidence
-        small = hl.shrink(text, lambda cand: any(f[0] == fk for f in failures_of(cand, variant, mode, fk)))
+        if cnt[fk + "|" + variant] > (1 if fk.startswith("history-") else 2):
+            continue                      # two shrunk instances per kind and build are reported (one for the histories); the count stays in the evidence
+        small = hl.shrink(text, lambda cand: any(f[0] == fk for f in failures_of(cand, variant, mode, fk)), max_tries=12 if fk.startswith("history-") else 40)
         f2 = failures_of(small, variant, mode, fk)
         d2 = next((f[2] for f in f2 if f[0] == fk), detail)
         rep = {"check": "C03", "kind": fk, "variant": variant, "scenario": small, "original": text, "detail": d2, "mode": mode}
